@@ -15,6 +15,14 @@ from .hooks import Registry, Contract
 VERIF = os.path.dirname(os.path.dirname(os.path.abspath(__file__)))
 
 
+class Allowed:
+    def __init__(self, refs, preds):
+        self.refs, self.preds = refs, preds
+
+    def __call__(self, r):
+        return z3.Or([r == x for x in self.refs] + [p(r) for p in self.preds])
+
+
 class Engine(Interp, InterpExpr, InterpComp, InterpStmt, InterpCall, InterpBuiltins):
     def __init__(self, ct, ts, runner, reg):
         Interp.__init__(self, ct, ts, runner, reg)
@@ -110,7 +118,11 @@ class Engine(Interp, InterpExpr, InterpComp, InterpStmt, InterpCall, InterpBuilt
         return ('field', args[0].ref, args[1])
 
     def bi_contents(self, args, kw, line):
-        return ('contents', args[0].ref)
+        v = args[0]
+        prefix = {ListV: 'L.', SetV: 'S.', DictV: 'D.', RecV: 'R.'}.get(type(v))
+        if prefix is None:
+            raise Unsupported('contents() of a non-container')
+        return ('contents', v.ref, prefix)
 
     def bi_whole(self, args, kw, line):
         return ('array', args[0])
@@ -140,7 +152,7 @@ class Engine(Interp, InterpExpr, InterpComp, InterpStmt, InterpCall, InterpBuilt
             self.mode = saved
 
     def allowed_fn(self, items):
-        """modifies items -> allowed(array name) -> None | 'all' | predicate(ref term)"""
+        """modifies items -> allowed(array name) -> None | 'all' | Allowed(refs, preds) (callable on a ref term)"""
         if items is None:
             return lambda name: 'all'
 
@@ -153,13 +165,13 @@ class Engine(Interp, InterpExpr, InterpComp, InterpStmt, InterpCall, InterpBuilt
                     return 'all'
                 if it[0] == 'field' and name.startswith(f'F:{it[2]}:'):
                     refs.append(it[1])
-                if it[0] == 'contents' and name[:2] in ('L.', 'S.', 'D.', 'R.'):
+                if it[0] == 'contents' and name[:2] == it[2]:
                     refs.append(it[1])
                 if it[0] == 'pred' and name[:2] in ('L.', 'S.', 'D.', 'R.'):
                     preds.append(it[1])
             if not refs and not preds:
                 return None
-            return lambda r: z3.Or([r == x for x in refs] + [p(r) for p in preds])
+            return Allowed(refs, preds)
         return allowed
 
     # ------------------------------------------------------------------ modular calls
@@ -395,6 +407,7 @@ def _run_path(eng, world, con, fi, variant, res, runner):
             # force a refuted record
             runner.obligations[(f'vac:precondition-satisfiable/{eng.cur_fn}', runner.prefix())].verdict = 'refuted'
     eng.old_heap = eng.heap.snapshot()
+    eng.heap.log = {}
     eng.entry_vars = dict(vars_)
     eng.clock0 = eng.clock
     eng.effects_base = list(eng.effects)
@@ -431,23 +444,47 @@ def _run_path(eng, world, con, fi, variant, res, runner):
             for cl in con.exc.get(declared[0], []):
                 t = eng.eval_clause(cl, con.module, bindings)
                 runner.oblige(f'exc:{cl.name}/{eng.cur_fn}', 'post', t, cl.lineno, model_probe=_probe(eng, bindings))
-    # frame
+    # frame: every write since entry is justified by the modifies clause (or hits an object allocated by the call)
     if mods is not None:
         allowed = eng.allowed_fn(mods)
         alloc0 = eng.old_heap.get('alloc', arr(Ref, B))
-        for name in sorted(set(eng.heap.arr) | set(eng.old_heap.arr)):
+        for name in sorted(eng.heap.log):
             if name == 'alloc':
-                continue
-            new, old = eng.heap.get(name), eng.old_heap.get(name)
-            if new.eq(old):
                 continue
             a = allowed(name)
             if a == 'all':
                 continue
-            r = z3.Const('r!fr', Ref)
-            cond = alloc0[r] if a is None else z3.And(alloc0[r], z3.Not(a(r)))
-            runner.oblige(f'frame:{name}/{eng.cur_fn}', 'frame', z3.ForAll([r], z3.Implies(cond, new[r] == old[r])),
-                          0, model_probe=_probe(eng, bindings))
+            new, old = eng.heap.get(name), eng.old_heap.get(name)
+            events = eng.heap.log[name]
+            claims = []
+            general = False
+            seen = set()
+            for evn in events:
+                if evn[0] == 'store':
+                    w = evn[1]
+                    if w.get_id() in seen:
+                        continue
+                    seen.add(w.get_id())
+                    claims.append(z3.Or(z3.Not(alloc0[w]), a(w) if a is not None else z3.BoolVal(False), new[w] == old[w]))
+                elif evn[0] == 'havoc':
+                    ca = evn[1]
+                    if ca == 'all' or ca.preds:
+                        general = True
+                    else:
+                        for w in ca.refs:
+                            if w.get_id() in seen:
+                                continue
+                            seen.add(w.get_id())
+                            claims.append(z3.Or(z3.Not(alloc0[w]), a(w) if a is not None else z3.BoolVal(False), new[w] == old[w]))
+                else:
+                    general = True
+            if general:
+                r = z3.Const('r!fr', Ref)
+                cond = alloc0[r] if a is None else z3.And(alloc0[r], z3.Not(a(r)))
+                claims = [z3.ForAll([r], z3.Implies(cond, new[r] == old[r]))]
+            if claims:
+                runner.oblige(f'frame:{name}/{eng.cur_fn}', 'frame', z3.And(claims) if len(claims) > 1 else claims[0],
+                              0, model_probe=_probe(eng, bindings))
 
 
 def _probe(eng, bindings):
